@@ -18,7 +18,7 @@ func init() {
 		Models:      []string{modelSig, modelCodec},
 		Explanation: "builder -> converters -> message is executed symbolically and the message is checked by an independent decoder (own copy of the default table, offset 1024, per-block tables of new symbols only, schema operator numbers as literals); then Unmarshal(Serialize) is checked to preserve content, ids, key id and bytes",
 		LevelText:   "Bounded symbolic model checking of the encoding path: every symbol index of block i resolves through default + tables of blocks <= i to the caller's text; per-block tables hold only new symbols; every term kind, every operator code, context and version 3 are carried; the round trip reproduces content, revocation ids, root key id and the same bytes; version != 3 (any uint32, or absent) is rejected.",
-		LevelNote:   "Message level only (ideal codec). Dates restricted to 1970..2100.",
+		LevelNote:   "Message level only (ideal codec). Dates: any instant whose seconds fit 64 bits. A fork family puts three blocks between authority and the block under test and appends a sibling before the bytes are read.",
 		DesignRef:   "DESIGN.md §6 C07",
 	})
 }
